@@ -634,6 +634,22 @@ class C11:
                 if q in allpts and allpts[q] != (s, api): P.fail(S, "gens-shared", "generator shared between (suite, interface id) pairs", [s, api.hex(), allpts[q][0], allpts[q][1].hex()])
                 allpts[q] = (s, api)
                 if api and q in absent.get(s, []): P.fail(S, "gens-shared", "a generator of the ABSENT api_id belongs to interface id " + api.hex(), [s])
+        # blind::prepare_parameters (a public function of its own): the combined set is create(n, id) ++ create(m, "BLIND_" || id) for every
+        # api_id -- present, empty and ABSENT -- without a repeated point, the identity or P1
+        stats["prepare_parameters"] = 0
+        for s_ in P.SUITES:
+            for api_t, api_b in [("N", b""), ("S", b""), ("S" + pyc.API_BLIND[s_].hex(), pyc.API_BLIND[s_]), ("S" + shared.hex(), shared)]:
+                for (gn, bn) in ([(1, 1), (3, 2), (2, 5)] if tier == "quick" else [(0, 0), (1, 0), (0, 1), (1, 1), (3, 2), (2, 5), (17, 9)]):
+                    spb = rng.choice(["N", "S" + (1 + rng.randrange(2**200)).to_bytes(32, "big").hex()])
+                    rp = S.run(["prep %s %s %s %d %d %s %s" % (s_, tl([b"m%d" % i for i in range(max(gn - 1, 0))]), tl([b"c"] * max(bn - 1, 0)), gn, bn, spb, api_t),
+                                "gens %s %d S%s" % (s_, gn, api_b.hex()), "gens %s %d S%s" % (s_, bn, (b"BLIND_" + api_b).hex())], expect="ok", label="prepare-parameters")
+                    stats["prepare_parameters"] += 1
+                    if all(x.status == "OK" for x in rp):
+                        pts = [rp[0].b(2)[i:i+48] for i in range(0, len(rp[0].b(2)), 48)]
+                        if rp[0].b(2) != rp[1].b(1) + rp[2].b(1):
+                            P.fail(S, "prepare-parameters-set", "prepare_parameters does not return create(n, id) ++ create(m, BLIND_ || id)", [s_, api_t, str(gn), str(bn)])
+                        if len(set(pts)) != len(pts): P.fail(S, "prepare-parameters-duplicate", "repeated point in the combined generator set", [s_, api_t, str(gn), str(bn)])
+                        if pyc.G1_ID in pts or rp[0].b(1) in pts: P.fail(S, "prepare-parameters-identity", "identity / P1 in the combined generator set", [s_, api_t])
         # cross (suite, interface) replays
         lines = []; labs = []
         def add(l, lab): lines.append(l); labs.append(lab)
